@@ -89,5 +89,23 @@ PROPS["C05"] = dict(
     assumptions=["universal resolvers return promptly (bounded waits <= 30ms)", "a goroutine parked identically in 3 dumps over 500ms with no resolver running is stuck"],
 )
 
+PROPS["C13"] = dict(
+    pkg="c13", race=False, level="exploration", prepare="exec_projects",
+    projects_quick=[("core", ["v0", "v1", "w2"])],
+    projects_thorough=[("core", ["v0", "v1", "w2", "v4"])],
+    quick=dict(shards=8, timeout=900), thorough=dict(shards=16, timeout=3000),
+    claim="metamorphic/differential testing of @defer on generated servers: rapid-generated queries with @defer on random subsets of "
+          "fragments (nested, in lists, if: literal/variable, shared/distinct/absent labels) x outcome plans with failures inside "
+          "groups x completion orders; the payload sequence is read to the end, merged in arrival order and compared with (1) the "
+          "reference executor's plain result (null propagation stopping at objects whose group delivered data:null) and (2) the same "
+          "server's answer to the query with every @defer removed; plus hasNext, exactly-once (path,label), known label, "
+          "path-resolves-in-merge-so-far and termination invariants",
+    note="which fields are deferred is implementation-defined and is not asserted; completion orders are steered by the harness but sampled",
+    technique="metamorphic property-based testing (rapid): @defer-removal relation + reference executor + invariants over the payload history",
+    rule="evaluation = one full payload sequence; non-trivial = >=1 incremental payload and (a group nested under another group's payload, "
+         "a group inside a list, or a failure inside a group); distinct by (query, plan seed, overrides, schedule mode)",
+    assumptions=["reference executor is correct", "the documented exception: a failure inside a deferred group nulls the object the group belongs to"],
+)
+
 # properties deliberately not claimed (reason); anything else missing from PROPS is "not built yet"
 NOT_CLAIMED = {}
